@@ -7,6 +7,7 @@ kept as ('raw', text) so that the executor can report it as unsupported *if it i
 import re
 
 FN_RE = re.compile(r"^fn (.+?)\((.*)\) -> (.+?) \{$")
+CONST_RE = re.compile(r"^(?:const|static) (.+): (.+?) = \{$")
 LOCAL_RE = re.compile(r"^\s*let (mut )?_(\d+): (.+);$")
 DEBUG_RE = re.compile(r"^\s*debug (\S+) => (.+);$")
 BB_RE = re.compile(r"^\s*bb(\d+)( \(cleanup\))?: \{$")
@@ -391,9 +392,13 @@ def parse_mir(text):
         line = lines[i]
         m = FN_RE.match(line)
         if not m:
-            i += 1
-            continue
-        name, argstr, ret = m.groups()
+            mc = CONST_RE.match(line)
+            if not mc:
+                i += 1
+                continue
+            name, argstr, ret = mc.group(1), "", mc.group(2)
+        else:
+            name, argstr, ret = m.groups()
         args = []
         for a in split_top(argstr):
             mm = re.match(r"_(\d+): (.+)$", a)
